@@ -37,3 +37,8 @@ claim("C04", "abstract interpretation of EncodedValue.__init__ per header byte (
       "set_static_fields must bind value i to field i, and the conversion DvClass.get_source applies before printing is interpreted on the reader's abstract value.",
       "Trusted: agstatic bit domain; DEX encoded_value table in the rule (from the public format document). FLOAT/DOUBLE/METHOD_TYPE/METHOD_HANDLE not decided. "
       "29 listed known findings (no sign extension) stay reported as KNOWN-FINDING.")
+
+claim("C27", "abstract interpretation of format_value per Res_value type with a symbolic 32-bit datum; formatting results normalised to pieces",
+      "format_value (and ARSCParser.get_resource_dimen/color) are interpreted for each defined type over all 2^32 data values at once (paths split on radix, unit, package and sign bits); "
+      "the normalised output pieces must be Android's: signed 24-bit mantissa x RADIX_MULTS[radix] (x100) + unit, signed 32-bit decimal, IEEE reinterpretation, 8 hex digits, boolean, '@'/'?' + android: prefix.",
+      "Trusted: agstatic bit domain and format normaliser; AOSP constants transcribed in the rule; _data is an unsigned 32-bit value. Unit nibbles outside the AOSP tables are not constrained.")
